@@ -213,8 +213,13 @@ func monitorC11(cfg CheckConfig, res *hx.Result, traces []*Trace) error {
 							prev = configs[pos-1]
 						}
 						n := uint64(0)
+						// a keyper counts once however often a voted-in configuration lists it (the genesis list is the
+						// operator's and is taken as given, entry by entry)
+						counted := map[string]bool{}
+						genesisPrev := pos <= 1
 						for _, k := range prev.keypers {
-							if b, ok := seen[k]; ok && b >= configs[pos].key.act {
+							if b, ok := seen[k]; ok && b >= configs[pos].key.act && (genesisPrev || !counted[k]) {
+								counted[k] = true
 								n++
 							}
 						}
